@@ -45,6 +45,11 @@ def coq_op(o, U):
     if n == "block":
         txs = "[" + "; ".join("(%s, %s, %s)" % (vlib.z(t), zl(U.txs[t][0]), cb(U.txs[t][1])) for t in o[3]) + "]"
         return "(OBlock %s %s %s %s)" % (vlib.z(o[1]), vlib.z(o[2]), txs, cb(o[4]))
+    if n == "reorg":
+        txs = "[" + "; ".join("(%s, %s, %s)" % (vlib.z(t), zl(U.txs[t][0]), cb(U.txs[t][1])) for t in o[3]) + "]"
+        return "(OReorg %s %s %s %s)" % (vlib.z(o[1]), vlib.z(o[2]), txs, cb(o[4]))
+    if n == "blocktxs":
+        return "(OBlockTxs %s)" % vlib.z(o[1])
     if n == "delaycheck":
         return "ODelayCheck"
     if n == "advance":
@@ -95,14 +100,76 @@ def conflicts(U, a, b):
     return any(o in U.txs[b][0] for o in U.txs[a][0])   # the null (coinbase) outpoint is an outpoint like any other to the mempool
 
 
-def gen_case(rng, nops):
+class Tracker:
+    """What the generator has to know about the history so far in order to stay inside the hypothesis flow_valid
+    (conservatively: it may avoid more than flow_valid excludes, never less)."""
+
+    def __init__(self, U):
+        self.U = U
+        self.chain = [0]
+        self.blocks = {}        # id -> (prev, txids, valid)
+        self.conf = {}          # t -> block id of the chain that holds it
+        self.orphan = set()     # relevant txs whose confirming block was orphaned, not confirmed again since
+        self.seen = set()       # txs that occurred in a tx op or a block
+        self.resent = set()     # txs sent again while confirmed in the chain (their block must not be orphaned)
+        self.next_block = 1
+
+    def tip(self):
+        return self.chain[-1]
+
+    def maybe_unsafe(self, t):
+        return any(t2 != t and conflicts(self.U, t, t2) for t2 in self.seen)
+
+    def free(self, chain=None):
+        """txs that may go into a block extending `chain`"""
+        chain = self.chain if chain is None else chain
+        return [t for t in self.U.order if not (t in self.conf and self.conf[t] in chain)
+                and not ((t in self.orphan or (t in self.conf and self.conf[t] not in chain)) and self.maybe_unsafe(t))]
+
+    def note_tx(self, t, src):
+        if t in self.conf:
+            self.resent.add(t)
+        self.seen.add(t)
+
+    def tx_allowed(self, t, src):
+        # local re-submission of an orphaned tx whose stored state may be unsafe: reported defect, excluded
+        return not (src == 2 and t in self.orphan and self.maybe_unsafe(t))
+
+    def accept(self, b, prev, txids):
+        self.chain.append(b)
+        for t in txids:
+            self.conf[t] = b
+            self.orphan.discard(t)
+            self.seen.add(t)
+
+    def revert(self, prev):
+        i = self.chain.index(prev)
+        gone = self.chain[i + 1:]
+        self.chain = self.chain[:i + 1]
+        for t, bb in list(self.conf.items()):
+            if bb in gone:
+                del self.conf[t]
+                if self.U.txs[t][1]:
+                    self.orphan.add(t)
+
+    def can_revert(self, prev):
+        i = self.chain.index(prev)
+        gone = self.chain[i + 1:]
+        return not any(self.conf.get(t) in gone for t in self.resent)
+
+    def pick(self, rng, cand, kmax=3):
+        chosen = []
+        for t in rng.shuffle(list(cand))[:rng.range(0, kmax)]:
+            if all(not conflicts(self.U, t, c) for c in chosen):
+                chosen.append(t)
+        return chosen
+
+
+def gen_case(rng, nops, reorgs=True):
     U = gen_universe(rng)
+    T = Tracker(U)
     ops = []
     ids = list(U.order)
-    next_block = 1
-    tip = 0
-    confirmed = set()
-    sent = {}
     bad_id = 500
     insync = False
     if rng.chance(5, 6):
@@ -110,43 +177,86 @@ def gen_case(rng, nops):
         insync = True
     for _ in range(nops):
         k = rng.weighted([("tx", 34), ("inv", 8), ("block", 14), ("delay", 12), ("advance", 12), ("restart", 4),
-                          ("sync", 3), ("gettx", 4), ("unconf", 4), ("badblock", 2)])
+                          ("sync", 3), ("gettx", 4), ("unconf", 4), ("badblock", 2)] +
+                         ([("reorg", 7), ("blocktxs", 2)] if reorgs else []))
         if k == "tx":
-            t = rng.choice(ids)
-            ops.append(["tx", t, rng.weighted([(0, 5), (1, 5), (2, 2)])])
+            # after a reorganisation the orphaned txs are announced again more often
+            t = rng.choice(sorted(T.orphan)) if T.orphan and rng.chance(1, 2) else rng.choice(ids)
+            src = rng.weighted([(0, 5), (1, 5), (2, 2)])
+            if not T.tx_allowed(t, src):
+                src = rng.choice([0, 1])
+            ops.append(["tx", t, src])
+            T.note_tx(t, src)
         elif k == "inv":
             ops.append(["inv", rng.choice(ids), int(rng.chance(2, 3))])
         elif k == "block":
-            cand = [t for t in ids if t not in confirmed]
-            rng2 = rng.shuffle(cand)
-            chosen = []
-            for t in rng2[:rng.range(0, 3)]:
-                if all(not conflicts(U, t, c) for c in chosen):
-                    chosen.append(t)
-            for t in chosen:
-                confirmed.add(t)
-            ops.append(["block", next_block, tip, chosen, 1])
-            sent[next_block] = (tip, chosen)
-            tip = next_block
-            next_block += 1
+            chosen = T.pick(rng, T.free())
+            b = T.next_block
+            T.next_block += 1
+            ops.append(["block", b, T.tip(), chosen, 1])
+            T.blocks[b] = (T.tip(), chosen, 1)
+            T.accept(b, T.tip(), chosen)
+        elif k == "reorg":
+            kind = rng.weighted([("fork", 10), ("extend", 2), ("unknown", 1), ("held", 1), ("tip", 1), ("invalid", 1)])
+            below = [p for p in T.chain[:-1] if T.can_revert(p)]
+            if kind in ("fork", "invalid") and below:
+                prev = rng.choice(below[-3:])
+                newchain = T.chain[:T.chain.index(prev) + 1]
+                chosen = T.pick(rng, T.free(newchain))
+                b = T.next_block
+                T.next_block += 1
+                valid = 0 if kind == "invalid" else 1
+                ops.append(["reorg", b, prev, chosen, valid])
+                T.blocks[b] = (prev, chosen, valid)
+                T.revert(prev)
+                if valid:
+                    T.accept(b, prev, chosen)
+                insync = False
+                if rng.chance(3, 4):
+                    ops.append(["setinsync", 1])
+                    insync = True
+            elif kind == "extend":
+                chosen = T.pick(rng, T.free())
+                b = T.next_block
+                T.next_block += 1
+                ops.append(["reorg", b, T.tip(), chosen, 1])
+                T.blocks[b] = (T.tip(), chosen, 1)
+                T.accept(b, T.tip(), chosen)
+            elif kind == "unknown":
+                bad_id += 1
+                ops.append(["reorg", bad_id, 77, [], 1])
+                insync = False
+                if rng.chance(3, 4):
+                    ops.append(["setinsync", 1])
+                    insync = True
+            elif kind == "held" and len(T.chain) > 2:
+                b = rng.choice(T.chain[1:-1])
+                ops.append(["reorg", b, T.blocks[b][0], T.blocks[b][1], T.blocks[b][2]])
+            elif kind == "tip" and len(T.chain) > 1:
+                b = T.tip()
+                ops.append(["reorg", b, T.blocks[b][0], T.blocks[b][1], T.blocks[b][2]])
+                insync = True
+        elif k == "blocktxs":
+            ops.append(["blocktxs", rng.range(1, max(1, len(T.chain)))])
         elif k == "badblock":
             kind = rng.choice(["known", "notnext", "invalid"])
             if kind == "known":
-                if sent:
-                    b = rng.choice(sorted(sent))
-                    ops.append(["block", b, sent[b][0], sent[b][1], 1])   # the same block again
+                held = [b for b in T.chain[1:]]
+                if held:
+                    b = rng.choice(held)
+                    ops.append(["block", b, T.blocks[b][0], T.blocks[b][1], T.blocks[b][2]])   # the same block again
                 else:
                     continue
             elif kind == "notnext":
                 bad_id += 1
                 ops.append(["block", bad_id, 77, [], 1])
             else:
-                cand = [t for t in ids if t not in confirmed]
+                cand = T.free()
                 if cand:
                     t = rng.choice(cand)
-                    confirmed.add(t)   # a transaction occurs in at most one block message
                     bad_id += 1
-                    ops.append(["block", bad_id, tip, [t], 0])
+                    ops.append(["block", bad_id, T.tip(), [t], 0])
+                    T.blocks[bad_id] = (T.tip(), [t], 0)
         elif k == "delay":
             if sum(1 for o in ops if o[0] == "delaycheck") < 5:
                 ops.append(["delaycheck"])
@@ -217,6 +327,46 @@ def pattern_cases():
     ops = [["setinsync", 1], ["tx", 1, 0], ["tx", 2, 1], ["restart"], ["setinsync", 1], ["advance", 75000], ["delaycheck"], ["unconf"],
            ["restart"], ["setinsync", 1], ["delaycheck"], ["unconf"]]
     res.append((U, ops))
+    res += reorg_patterns(U)
+    return res
+
+
+def reorg_patterns(U):
+    """confirm -> orphan -> announce again (every source) -> delay check / conflict / confirmation on the new branch /
+    restart in between; the tx seen (and reported safe) or only announced before its first confirmation; the new branch
+    unrelated, empty or holding a double spend of the orphaned tx."""
+    res = []
+    for src in (0, 1, 2):
+        for pre in ([], [["tx", 1, 0], ["advance", 75000], ["delaycheck"]], [["inv", 1, 1]], [["tx", 1, 2]]):
+            for branch in ([4], [], [2]):
+                head = [["setinsync", 1]] + pre + [["block", 1, 0, [1], 1], ["unconf"], ["reorg", 3, 0, branch, 1], ["blocktxs", 1]]
+                follows = [
+                    [["setinsync", 1], ["tx", 1, src], ["unconf"], ["advance", 75000], ["delaycheck"], ["unconf"], ["gettx", 1]],
+                    [["setinsync", 1], ["tx", 1, src], ["tx", 2, 1], ["unconf"], ["advance", 75000], ["delaycheck"]],
+                    [["restart"], ["setinsync", 1], ["tx", 1, src], ["advance", 75000], ["delaycheck"], ["restart"], ["setinsync", 1],
+                     ["delaycheck"], ["unconf"]],
+                    [["tx", 1, src], ["unconf"], ["setinsync", 1], ["tx", 1, src], ["inv", 1, 1], ["advance", 75000], ["delaycheck"]],
+                ]
+                if branch != [2]:
+                    follows += [
+                        [["setinsync", 1], ["tx", 1, src], ["block", 4, 3, [1], 1], ["unconf"], ["blocktxs", 2], ["tx", 1, 1]],
+                        [["setinsync", 1], ["block", 4, 3, [1], 1], ["unconf"], ["blocktxs", 2], ["tx", 1, src], ["gettx", 1]],
+                        [["setinsync", 1], ["tx", 1, src], ["advance", 75000], ["delaycheck"], ["block", 4, 3, [2], 1], ["unconf"],
+                         ["tx", 1, 1]],
+                    ]
+                for f in follows:
+                    res.append((U, head + f))
+    # deeper forks, the orphaned tx confirmed again by the competing block itself, refused competing blocks,
+    # a second reorganisation back, headers that are not followed
+    for src in (0, 1, 2):
+        res.append((U, [["setinsync", 1], ["block", 1, 0, [1], 1], ["block", 2, 1, [4], 1], ["reorg", 3, 1, [], 1], ["setinsync", 1],
+                        ["tx", 4, src], ["tx", 1, src], ["unconf"], ["advance", 75000], ["delaycheck"], ["block", 5, 3, [4], 1], ["unconf"]]))
+        res.append((U, [["setinsync", 1], ["block", 1, 0, [1], 1], ["block", 2, 1, [4], 1], ["reorg", 3, 0, [1], 1], ["blocktxs", 1],
+                        ["blocktxs", 2], ["setinsync", 1], ["tx", 4, src], ["unconf"], ["reorg", 5, 0, [4], 1],
+                        ["setinsync", 1], ["tx", 1, src], ["advance", 75000], ["delaycheck"], ["unconf"], ["gettx", 1], ["gettx", 4]]))
+        res.append((U, [["setinsync", 1], ["tx", 4, 0], ["block", 1, 0, [4], 1], ["block", 2, 1, [], 1], ["reorg", 7, 1, [1], 0], ["unconf"],
+                        ["tx", 4, src], ["reorg", 8, 99, [], 1], ["reorg", 1, 0, [4], 1], ["setinsync", 1], ["block", 9, 1, [1], 1],
+                        ["reorg", 9, 1, [1], 1], ["setinsync", 0], ["reorg", 9, 1, [1], 1], ["tx", 1, 0], ["unconf"]]))
     return res
 
 
@@ -268,6 +418,8 @@ CODES = {
     131: "C03 delivery before in sync", 141: "C05 new conflicting tx not unsafe", 142: "C05 earlier conflicting tx not reported unsafe",
     143: "C03 matching tx not delivered", 144: "C05 re-seen delivered tx with new conflict not reported unsafe", 151: "C06 block not announced first", 152: "C06 losing tx not cancelled exactly once",
     153: "C03/C04/C11 block tx not notified with proof", 154: "C04 refused block delivered something",
+    155: "C06 a header that neither extends nor forks the held chain was processed",
+    181: "observation (not judged): notification for an unconfirmed tx carries the merkle proof of an orphaned block",
     161: "C07 safe report while not in sync", 162: "C07 safe not reported when due", 171: "C11 delivered tx not fetchable",
     197: "trace length", 198: "tx step failed", 199: "undecodable observation",
 }
@@ -275,10 +427,34 @@ CODES = {
 PROPERTY_CODES = {
     "C03": {111, 112, 113, 114, 115, 131, 143, 153},
     "C05": {103, 141, 142, 144},
-    "C06": {151, 152, 154},
+    "C06": {151, 152, 154, 155},
     "C07": {101, 102, 103, 121, 122, 123, 124, 125, 126, 161, 162},
     "C11": {113, 121, 153, 171},
 }
+
+# Observation 181 (monitor "stale", TxFlowSpec.txflow_stale_monitor): a transaction whose confirming block was orphaned
+# is announced again and delivered as new (C03 allows exactly that) - today's code delivers it, and every later
+# update while it is unconfirmed, still carrying the orphaned block's merkle proof and unconfirmed depth 0.  The
+# property texts speak of the proof only for notifications of an inclusion in a block (C04), so this is recorded in
+# the evidence, never counted in a verdict.
+STALE = []
+
+
+def note_stale(rec):
+    """True iff rec is an observation record (to be kept out of the verdict)."""
+    if rec.get("checker") == "stale":
+        STALE.append(rec)
+        return True
+    return False
+
+
+def stale_coverage():
+    note = {"histories": len(STALE)}
+    if STALE:
+        r = min(STALE, key=lambda x: len(x.get("ops", [])))
+        note.update({"what": CODES[181], "cfg": r.get("cfg"), "ops": r.get("ops"), "step": r.get("step"),
+                     "observed": r.get("observed")})
+    return note
 
 
 def keyfn(rec):
@@ -291,6 +467,7 @@ def keyfn(rec):
 
 def make_spec(pid, title_rule):
     MON = {"flow": "txflow_monitor %d" % DELAY,
+           "stale": "txflow_stale_monitor %d" % DELAY,
            "hyp_valid": "fun ops _ => if flow_valid %d ops then None else Some (0, [900])" % DELAY}
 
     def suites(tier, rng, replay):
@@ -299,6 +476,8 @@ def make_spec(pid, title_rule):
     mycodes = PROPERTY_CODES.get(pid, set())
 
     def accept(rec):
+        if note_stale(rec):
+            return False
         if rec.get("checker") != "flow":
             return True
         code = (rec.get("expected") or [0])[0]
@@ -317,9 +496,9 @@ def make_spec(pid, title_rule):
             "modelled, not verified: relevance is a boolean per tx (composition with the filter is C08), hashes are ids, the output fetcher answers in order, merkle tree library (C04), storage back end",
         ],
         "assumptions": ["atomicity at the granularity of processUnconfirmedTx / ProcessBlock / one delay-check iteration for the THEOREMS (the tx repository lock is held across ProcessBlock, the tx state lock across a delay-check iteration and its sending); the interleavings the code must exclude by those locks are replayed on the real code with pause points in the harness (race_delay: conflict between the delay check's read and write; race_send: conflict while the safe update is being sent; race_block_tx: the tx thread handles the tx message of a tx first seen in a block while ProcessBlock is in the middle of it); other interleavings are not explored",
-                        "no reorganisation in these histories (reorgs are covered by the sync model)",
+                        "reorganisations: the trusted headers handler reverts the chain to a held block, then the competing block is processed (op reorg, driven through the real handlers.HeadersHandler); histories are those of flow_valid (TxFlowSpec.v), which follows the run of the model and leaves out four reported defects of the code on reorganisations: (a) local re-submission of an orphaned tx whose stored state is unsafe (delivered safe AND unsafe), (b) an orphaned tx with an unsafe stored state confirmed again before it was announced again (delivered as new, safe: the unsafe flag is lost), (c)/(d) a tx that was sent again while confirmed and whose block is orphaned later (it stays in the mempool: no notification when a block of the new branch confirms it while in sync; a conflict recorded while it was confirmed is forgotten); the generator avoids these patterns conservatively",
                         "wall-clock period of the delay checker (100 ms) is a runtime fact"],
-        "rule": title_rule,
+        "rule": (title_rule + "; + reorganisations through the real headers handler (fork below the tip, also refused competing blocks, unknown parent, held / tip headers): confirm -> orphan -> announce again (every source) -> delay check / conflict / confirmation on the new branch / restart in between, deeper forks, second reorganisation") if title_rule else title_rule,
         "accept_failure": accept,
         "monitors": MON,
     }
@@ -403,7 +582,8 @@ def race_extra(tier, rng, workdir):
             failures.append(race_rec(c, r, 1, 106, "after the block / tx-thread race the node differs from 'block, then tx message' "
                                      "(unconfirmed set / later notifications): %s instead of %s" % (r[2:], tw[3:])))
     return {"failures": failures, "evaluations": len(cases) + len(bcases),
-            "coverage": {"rmw_race_scenarios": len(cases), "rmw_race_pause_point_reached": reached["race_delay"],
+            "coverage": {"reannounced_with_orphaned_proof_not_judged": stale_coverage(),
+                         "rmw_race_scenarios": len(cases), "rmw_race_pause_point_reached": reached["race_delay"],
                          "send_race_pause_point_reached": reached["race_send"],
                          "block_tx_race_scenarios": len(bcases), "block_tx_race_pause_point_reached": breached}}
 
